@@ -292,6 +292,56 @@ func c09Target(c *Ctx) {
 					facts []BoolFact
 				}
 				var alts []alt
+				// a package-level table indexed by the option: schemeBySSL[Config.SSL] with {true: "https", false: "http"}
+				// filled by the package initialiser and written nowhere else
+				if lk, isLk := Strip(v).(*ssa.Lookup); isLk && IsFieldLoad(lk.Index, "GunConfig", "SSL") {
+					if u, isU := lk.X.(*ssa.UnOp); isU && u.Op == token.MUL {
+						if g, isG := u.X.(*ssa.Global); isG && g.Pkg != nil {
+							tbl := map[bool]string{}
+							clean := true
+							for _, h := range PkgFuncs(g.Pkg) {
+								isInit := h.Name() == "init" && h.Parent() == nil
+								EachInstr(h, func(i2 ssa.Instruction) {
+									switch x := i2.(type) {
+									case *ssa.Store:
+										if x.Addr == ssa.Value(g) && !isInit {
+											clean = false
+										}
+										if x.Addr == ssa.Value(g) && isInit {
+											EachInstr(h, func(i3 ssa.Instruction) {
+												if mu, ok := i3.(*ssa.MapUpdate); ok && sameRoots(mu.Map, x.Val) {
+													k, isK := ConstCond(mu.Key)
+													sv, isS := ConstString(mu.Value)
+													if isK && isS {
+														tbl[k] = sv
+													} else {
+														clean = false
+													}
+												}
+											})
+										}
+									case *ssa.MapUpdate:
+										if !isInit {
+											if u2, ok := x.Map.(*ssa.UnOp); ok && u2.X == ssa.Value(g) {
+												clean = false
+											}
+										}
+									}
+								})
+							}
+							if clean && len(tbl) == 2 {
+								nScheme += 2
+								if tbl[true] == "https" {
+									https++
+								}
+								if tbl[false] == "http" {
+									http++
+								}
+								return
+							}
+						}
+					}
+				}
 				if phi, isPhi := v.(*ssa.Phi); isPhi {
 					for i, e := range phi.Edges {
 						alts = append(alts, alt{e, EdgeFacts(phi.Block().Preds[i], phi.Block())})
